@@ -213,6 +213,33 @@ def check_case(ctx, case, rng):
                         viol("construct", "positional-construction-differs-from-keyword-construction", npos=npos)
         except Exception as e:  # noqa: BLE001
             viol("construct", f"construction-raises:{type(e).__name__}", subset=subset, error=lib.exc_sig(e))
+        # a default instance that was modified (also through the forwarded fields of an anonymous member) does
+        # not change what a later construction returns
+        try:
+            d1 = T()
+            zero = lib.nan_clean(lib.norm(T(), top, strict=False))
+            for f in type(d1).fields.values():
+                pass
+            touched = 0
+            for fname, fld in list(T.fields.items())[:6]:
+                from dissect.cstruct.types.base import BaseArray as _BA
+
+                if issubclass(fld.type, int) and not issubclass(fld.type, (lib.Pointer,)) and not fld.bits:
+                    try:
+                        setattr(d1, fname, 1)
+                        touched += 1
+                    except Exception:  # noqa: BLE001
+                        pass
+            again = lib.nan_clean(lib.norm(T(), top, strict=False))
+            part = lib.nan_clean(lib.norm(T(**{}), top, strict=False))
+            ctx.evaluation(key + ("fresh-default-after-mutation", touched))
+            if again != zero or part != zero:
+                viol("construct", "later-default-construction-changed-by-mutating-an-earlier-instance",
+                     got=again, want=zero)
+            elif touched:
+                ctx.event("fresh_defaults_checked")
+        except Exception as e:  # noqa: BLE001
+            viol("construct", f"default-construction-raises:{type(e).__name__}", error=lib.exc_sig(e))
         # assignment locality
         lay = model.layout(top, cfg)
         obj = T(raw1)
